@@ -222,7 +222,7 @@ PROPS["C14"] = {
                                   "pipe inputs are limited to 60000 bytes so that the whole file fits the pipe buffer and no writer thread is needed",
                                   "the open-descriptor census reads /proc/self/fd"],
     "stages": [
-        {"bin": "c14", "quick": {"cases": 1500, "workers": 16, "budget": 200}, "thorough": {"cases": 30000, "workers": 16, "budget": 1500}},
+        {"bin": "c14", "quick": {"cases": 2500, "workers": 16, "budget": 200}, "thorough": {"cases": 30000, "workers": 16, "budget": 1500}},
     ],
 }
 
